@@ -2,6 +2,10 @@ package conf
 
 import (
 	"encoding/pem"
+	bcli "github.com/aperturerobotics/bifrost/cli"
+	"github.com/aperturerobotics/bifrost/envelope"
+	ucli "github.com/aperturerobotics/cli"
+	"io"
 	"os"
 	"path/filepath"
 	"strings"
@@ -200,6 +204,42 @@ func checkC39(c c39Case) (o vstat.Outcome) {
 				} else if id != first {
 					return vstat.Viol("reload-different-identity", "call %d returned peer %s, first call %s", i+1, id, first)
 				}
+			}
+		}
+		return nil
+	})
+	if o.V != nil || expect == "new" {
+		return
+	}
+	// the same file through the command line's private-key loader (envelope unseal --info): a file that is not a
+	// key makes the command fail instead of going on without that key
+	o.V = vstat.Guard("cli/envelope-unseal", func() *vstat.Violation {
+		env, err := envelope.BuildEnvelope(gen.NewDetStream([]byte("c39-env")), "c39 ctx", []byte("payload"), []crypto.PubKey{k.GetPublic()},
+			&envelope.EnvelopeConfig{EnvelopeId: "c39", Threshold: 0, GrantConfigs: []*envelope.EnvelopeGrantConfig{{ShareCount: 1, KeypairIndexes: []uint32{0}}}})
+		if err != nil {
+			return nil
+		}
+		eb, _ := env.MarshalVT()
+		envPath, outPath := filepath.Join(dir, "sealed.bin"), filepath.Join(dir, "out.json")
+		if os.WriteFile(envPath, eb, 0o600) != nil {
+			return nil
+		}
+		args := &bcli.EnvelopeArgs{}
+		app := &ucli.App{Name: "verif", Commands: args.BuildCommands(), Writer: io.Discard, ErrWriter: io.Discard, HideHelp: true,
+			ExitErrHandler: func(*ucli.Context, error) {}}
+		rerr := app.Run([]string{"verif", "unseal", "--info", "--key", path, "--context", "c39 ctx", "--input", envPath, "--output", outPath})
+		out, _ := os.ReadFile(outPath)
+		switch expect {
+		case "error":
+			if rerr == nil {
+				return vstat.Viol("cli-ignores-bad-key-file", "file state %q: `envelope unseal --info` succeeded (output %q) instead of reporting that the key file cannot be loaded", c.State, string(out))
+			}
+		case "same":
+			if rerr != nil {
+				return vstat.Viol("cli-rejects-valid-key-file", "file state %q: `envelope unseal --info` failed: %v", c.State, rerr)
+			}
+			if !strings.Contains(string(out), "\"success\": true") {
+				return vstat.Viol("cli-valid-key-does-not-open", "file state %q: unseal with the recipient's key file reports %s", c.State, string(out))
 			}
 		}
 		return nil
